@@ -79,33 +79,61 @@ def bounded_runtime_unions(tier, seed):
 
 
 def bounded_emitted_mapping(tier, seed):
-    """emitted <Alias>Discriminator.get_mapping() has exactly the spec's discriminator values, each mapped to the class of its schema"""
+    """emitted <Alias>Discriminator.get_mapping() has exactly the spec's discriminator values, each mapped to the class of its schema — for mapping
+    values written as full references, as bare schema names and mixed, and for a variant that several values select (with and without an enum on the
+    variant's discriminator property); every mapped value decodes a payload of its variant to that class, an unmapped value is rejected"""
+    import json
     from props import corpus as C, gen_harness as G
     REF = C.REF
-    schemas = {"Base": C.obj({"id": C.PRIMS["str"], "kind": C.PRIMS["str"]}, ["id", "kind"]),
-               "Cat": {"allOf": [C.ref("Base"), C.obj({"lives": C.PRIMS["int"]})]}, "Dog": {"allOf": [C.ref("Base"), C.obj({"breed": C.PRIMS["str"]})]},
-               "Animal": {"oneOf": [C.ref("Cat"), C.ref("Dog")], "discriminator": {"propertyName": "kind", "mapping": {"dog": REF + "Dog", "cat": REF + "Cat", "puppy": REF + "Dog", "kitten": REF + "Cat"}}}}
-    d = C.doc("U", [C.op("/a", "post", "postA", ["a"], None, C.body_json(C.ref("Animal")), {"200": C.resp_json(C.ref("Animal"))})], schemas)
-    root = G.scratch("c14")
-    failures, n = [], 1
-    try:
-        err = G.generate(d, root, "un")
-        if err is None:
-            code = textwrap.dedent('''
-                from un.models.animal import AnimalDiscriminator
-                from un.models.cat import Cat
-                from un.models.dog import Dog
-                m = AnimalDiscriminator().get_mapping()
-                want = {"dog": Dog, "cat": Cat, "puppy": Dog, "kitten": Cat}
-                assert m == want, (sorted(m), sorted(want))
-            ''')
-            ok, out = G.import_modules(root, ["un.models"], extra_code=code)
-            if not ok:
-                failures.append({"id": "bounded:emitted-discriminator-mapping", "detail": out[-400:], "input": {"mapping": ["dog", "cat", "puppy", "kitten"]}})
-    finally:
-        shutil.rmtree(root, ignore_errors=True)
-    return {"function": "emitted <Alias>Discriminator.get_mapping() vs. the spec's discriminator mapping (aliased values included)", "backend": "bounded",
-            "bound": "1 document: 4 discriminator values onto 2 schemas", "evaluations": n, "distinct_nontrivial": 4, "exhaustive": False, "failures": failures}
+    forms = {"full-ref": lambda n: REF + n, "bare-name": lambda n: n, "mixed": lambda n: (REF + n if n == "Cat" else n)}
+    failures, n = [], 0
+    for form, mk in forms.items():
+        for enum_on_variant in (False, True):
+            kind_cat = {"type": "string", "enum": ["cat", "kitten"]} if enum_on_variant else C.PRIMS["str"]
+            kind_dog = {"type": "string", "enum": ["dog", "puppy"]} if enum_on_variant else C.PRIMS["str"]
+            schemas = {"Cat": C.obj({"id": C.PRIMS["str"], "kind": kind_cat, "lives": C.PRIMS["int"]}, ["id", "kind"]),
+                       "Dog": C.obj({"id": C.PRIMS["str"], "kind": kind_dog, "breed": C.PRIMS["str"]}, ["id", "kind"]),
+                       "Animal": {"oneOf": [C.ref("Cat"), C.ref("Dog")], "discriminator": {"propertyName": "kind", "mapping": {
+                           "dog": mk("Dog"), "cat": mk("Cat"), "puppy": mk("Dog"), "kitten": mk("Cat")}}}}
+            d = C.doc("U", [C.op("/a", "post", "postA", ["a"], None, C.body_json(C.ref("Animal")), {"200": C.resp_json(C.ref("Animal"))})], schemas)
+            root = G.scratch("c14")
+            label = f"{form}{'+variant-enum' if enum_on_variant else ''}"
+            try:
+                n += 1
+                err = G.generate(d, root, "un")
+                if err is not None:
+                    failures.append({"id": f"bounded:emitted-discriminator-mapping:{label}:generation", "detail": f"{type(err).__name__}: {err}"[:300], "input": {"form": label}})
+                    continue
+                code = textwrap.dedent('''
+                    import json
+                    from un.models.animal import Animal, AnimalDiscriminator
+                    from un.models.cat import Cat
+                    from un.models.dog import Dog
+                    from un.core.cattrs_converter import structure_from_dict
+                    from un.core.utils import DataclassSerializer
+                    m = AnimalDiscriminator().get_mapping()
+                    want = {"dog": Dog, "cat": Cat, "puppy": Dog, "kitten": Cat}
+                    assert m == want, ("mapping", m and sorted(m), sorted(want))
+                    for value, cls in want.items():
+                        doc = {"id": "1", "kind": value, ("lives" if cls is Cat else "breed"): (9 if cls is Cat else "lab")}
+                        obj = structure_from_dict(doc, Animal)
+                        assert type(obj) is cls, ("variant", value, type(obj).__name__)
+                        back = json.loads(json.dumps(DataclassSerializer.serialize(obj)))
+                        assert back == doc, ("re-encoded", doc, back)
+                    try:
+                        structure_from_dict({"id": "1", "kind": "bird", "lives": 1}, Animal)
+                        raise AssertionError(("unmapped value accepted", "bird"))
+                    except (ValueError, TypeError, KeyError):
+                        pass
+                ''')
+                ok, out = G.import_modules(root, ["un.models"], extra_code=code)
+                if not ok:
+                    failures.append({"id": f"bounded:emitted-discriminator-mapping:{label}", "detail": out[-400:], "input": {"form": label, "mapping": ["dog", "cat", "puppy", "kitten"]}})
+            finally:
+                shutil.rmtree(root, ignore_errors=True)
+    return {"function": "emitted <Alias>Discriminator.get_mapping() and discriminated decoding vs. the spec's discriminator mapping (aliased values; full-ref / bare-name / "
+                        "mixed mapping values; enum on the variants' discriminator property)", "backend": "bounded",
+            "bound": f"{n} documents: 4 discriminator values onto 2 schemas", "evaluations": n, "distinct_nontrivial": n, "exhaustive": False, "failures": failures}
 
 
 def bounded_generated_union_members(tier, seed):
